@@ -82,8 +82,8 @@ func checkC14(c RoutingCase) (vs []*Violation) {
 				if p := gen.MuxPattern(s.Root); p == "/" || p == "" {
 					break // from here on everything is served through the pattern "/": nothing more is registered
 				}
-				if gen.MuxPattern(s.Root) == req.Path {
-					own = true
+				if gen.MuxPattern(s.Root) == req.Path && s.RootForm != 1 {
+					own = true // (a root written with a trailing slash, "/a/", only claims the subtree)
 				}
 			}
 			if own {
